@@ -1,5 +1,5 @@
 """C15 - matchers change only what they target and never the caller's data."""
-import json
+import json, re
 from runner import Prop
 from common import hx, unhx
 import gen as G
@@ -19,6 +19,20 @@ def pick_paths(r, ast, n):
         if not any(p[:len(q)] == q or q[:len(p)] == p for q in out):
             out.append(p)
     return out
+
+
+def norm_ph(v):
+    """the TEXT of the default placeholders (`<Any value>`, `<Type:map[string]interface {}>`) is wording: where one is expected,
+    any text of that family is accepted"""
+    if isinstance(v, dict):
+        return {k: norm_ph(x) for k, x in v.items()}
+    if isinstance(v, list):
+        return [norm_ph(x) for x in v]
+    if isinstance(v, str) and re.match(r"^<Type:.*>$", v):
+        return "<Type:*>"
+    if isinstance(v, str) and re.match(r"^<Any\b.*>$", v):
+        return "<Any*>"
+    return v
 
 
 class C15(Prop):
@@ -211,7 +225,7 @@ class C15(Prop):
                 except ValueError:
                     fails.append({"msg": "obs %d: masked document is not valid JSON" % idx})
                     continue
-                if got != exp:
+                if norm_ph(got) != norm_ph(exp):
                     fails.append({"msg": "obs %d: masked document differs from the expected one" % idx})
         return fails
 
